@@ -27,6 +27,13 @@ pub fn catalogue() -> Vec<(String, Box<dyn Fn() -> Result<Vec<u8>, String> + Sen
         json!({"size": [2, 32768, 32768, 65530], "links": [[{"to": 2, "width": 2}, {"to": 3, "width": 4}], [{"to": 4, "width": 4}], [{"to": 4, "width": 2}], []]}),
         json!({"size": [2, 2, 2, 2, 2, 2], "links": [[{"to": 2, "width": 2}, {"to": 3, "width": 2}, {"to": 4, "width": 2}], [{"to": 5, "width": 2}, {"to": 6, "width": 2}], [{"to": 5, "width": 2}, {"to": 6, "width": 2}], [{"to": 6, "width": 2}, {"to": 5, "width": 2}], [], []]}),
         json!({"size": [2, 30000, 30000, 30000, 30000], "links": [[{"to": 2, "width": 4}, {"to": 3, "width": 4}, {"to": 4, "width": 2}], [{"to": 5, "width": 2}], [{"to": 5, "width": 2}], [{"to": 5, "width": 2}], []]}),
+        // two 32-bit spaces with three roots each, every root sharing two ~64k leaves of its cluster through 16-bit
+        // offsets: several subgraphs have to be isolated in the same round, in both spaces
+        json!({"size": [2, 18, 20, 22, 18, 20, 22, 65500, 65500, 65500, 65500],
+               "links": [[{"to": 2, "width": 4}, {"to": 3, "width": 4}, {"to": 4, "width": 4}, {"to": 5, "width": 4}, {"to": 6, "width": 4}, {"to": 7, "width": 4}],
+                         [{"to": 8, "width": 2}, {"to": 9, "width": 2}], [{"to": 8, "width": 2}, {"to": 9, "width": 2}], [{"to": 8, "width": 2}, {"to": 9, "width": 2}],
+                         [{"to": 10, "width": 2}, {"to": 11, "width": 2}], [{"to": 10, "width": 2}, {"to": 11, "width": 2}], [{"to": 10, "width": 2}, {"to": 11, "width": 2}],
+                         [], [], [], []]}),
     ];
     for (i, g) in graphs.into_iter().enumerate() {
         let g = std::sync::Arc::new(mock(g));
